@@ -125,7 +125,7 @@ pub fn profile_for(prop: &str) -> Profile {
         "C09" => Profile {
             w_retain: 14,
             w_take: 12,
-            w_resize: 6,
+            w_resize: 10,
             w_close: 1,
             max_lo: 1,
             max_hi: 5,
